@@ -31,6 +31,23 @@ type Program []Instr
 type Payload struct {
 	ID string  `json:"id"` // unique id of the event (split/offset or script position)
 	P  Program `json:"p,omitempty"`
+	X  string  `json:"x,omitempty"` // opaque extra carried for the recorders (e.g. the source record)
+}
+
+// EncodePayloadWith is EncodePayload with the opaque extra.
+func EncodePayloadWith(id string, p Program, x string) []byte {
+	b, err := json.Marshal(Payload{ID: id, P: p, X: x})
+	lib.Must(err)
+	return b
+}
+
+// DecodePayload parses a keyed event value.
+func DecodePayload(v []byte) (Payload, bool) {
+	var pl Payload
+	if err := json.Unmarshal(v, &pl); err != nil {
+		return pl, false
+	}
+	return pl, true
 }
 
 func EncodePayload(id string, p Program) []byte {
@@ -154,6 +171,9 @@ type Handler struct {
 	OnCall    func(seq int) // optional: called (without the lock) at the start of every invocation (latency gates)
 	applied   map[string]int // payload id -> times applied (exactly-once evidence)
 	Sink      [][]byte
+	// Check, when set, is evaluated for every keyed event before its program is applied, with the
+	// committed state of its key (e.g. exactly-once and per-split order entries kept in the state itself).
+	Check func(h *Handler, key []byte, pl Payload, sh KeyShadow) (kind, detail string)
 }
 
 func NewHandler(name string) *Handler { return NewHandlerSharing(name, NewShadowStore()) }
@@ -261,6 +281,11 @@ func (h *Handler) ProcessEventBatch(ctx context.Context, req *handlerpb.ProcessE
 			}
 			prog = pl.P
 			h.applied[pl.ID]++
+			if h.Check != nil {
+				if kind, detail := h.Check(h, key, pl, h.shadow[string(key)]); kind != "" {
+					h.problem(kind, "call %d: %s", call.Seq, detail)
+				}
+			}
 			call.Events = append(call.Events, Ev{Kind: 'K', Key: key, ID: pl.ID, T: ev.KeyedEvent.Timestamp.AsTime().UnixNano()})
 		case *handlerpb.Event_TimerExpired:
 			key = ev.TimerExpired.Key
